@@ -130,7 +130,7 @@ def main(argv=None):
         # 3. audit
         if proof["built"]:
             proof["audit"] = core.audit(prop, theorems, meta["modules"])
-            proof["scan"] = core.scan_sources()
+            proof["scan"] = core.scan_sources(list(meta["modules"]) + list(meta.get("driver_modules", [])))
     discharged = [t for t in theorems if proof["built"] and proof["audit"].get(t, {}).get("ok") and not proof["scan"]] \
         if not args.no_build else []
     proof_ok = args.no_build or (len(discharged) == len(theorems))
